@@ -50,7 +50,10 @@ FLAVOURS = {
     "asan": "-O1 -g -fno-omit-frame-pointer -fsanitize=address,undefined -fno-sanitize-recover=undefined",
     # drivers that interpose libc (virtual clock / fs) or run as crash children
     "plain": "-O1 -g",
+    # the library with its network option (HttpSink), for drv_http
+    "net": "-O1 -g",
 }
+FLAVOUR_CMAKE = {"net": ["-DQTLOGGER_NETWORK=ON"]}
 
 
 class _Lock:
@@ -77,7 +80,7 @@ def ensure_harness(flavour, targets):
             bdir.mkdir(parents=True, exist_ok=True)
             cmd = ["cmake", "-G", "Ninja", "-S", str(VERIF / "harness"), "-B", str(bdir),
                    f"-DQTL_REPO={REPO}", "-DCMAKE_BUILD_TYPE=None",
-                   f"-DCMAKE_CXX_FLAGS={FLAVOURS[flavour]} -D{GUARD}"]
+                   f"-DCMAKE_CXX_FLAGS={FLAVOURS[flavour]} -D{GUARD}"] + FLAVOUR_CMAKE.get(flavour, [])
             r = subprocess.run(cmd, capture_output=True, text=True)
             if r.returncode != 0:
                 raise ToolFailure("cmake configure failed:\n" + r.stdout[-3000:] + r.stderr[-3000:])
